@@ -461,3 +461,29 @@ Fixpoint spec_leaves_m (k : nat) (m : member) (p : path) {struct m} : list sleaf
   end.
 Definition spec_leaves (x : sigt) : list sleaf :=
   flat_map (fun nm => spec_leaves_m (b2n (fst x)) (snd nm) [PN (fst nm)]) (snd x).
+
+(* ---------- hypotheses used by the theorems (decidable) ---------- *)
+Fixpoint nodupb (l : list Z) : bool :=
+  match l with [] => true | a :: r => negb (existsb (Z.eqb a) r) && nodupb r end.
+(* dict keys are distinct at every level; every initial value is representable in the port's shape *)
+Fixpoint wf_mb (m : member) : bool :=
+  match m with
+  | Port _ sh i _ => norm sh i =? i
+  | Iface _ _ ms _ => nodupb (map fst ms) && forallb (fun nm => wf_mb (snd nm)) ms
+  end.
+(* same without the condition on initial values *)
+Fixpoint names_ok (m : member) : bool :=
+  match m with
+  | Port _ _ _ _ => true
+  | Iface _ _ ms _ => nodupb (map fst ms) && forallb (fun nm => names_ok (snd nm)) ms
+  end.
+(* no FlippedInterface proxy has to hand out a LIST of interfaces (flipped() rejects lists) *)
+Fixpoint safe_mb (fl : bool) (m : member) : bool :=
+  match m with
+  | Port _ _ _ _ => true
+  | Iface f w ms _ =>
+      let g := sub_flag fl f w in
+      forallb (fun nm => negb (g && m_is_iface (snd nm) && nonempty (m_dims (snd nm))) && safe_mb g (snd nm)) ms
+  end.
+Definition wf_sig (x : sigt) : bool := wf_mb (top x).
+Definition safe_sig (x : sigt) : bool := safe_mb false (top x).
